@@ -64,7 +64,7 @@ def plan(tier, seed):
     chunks.append({"key": "ak/constructed", "kind": "ak_constructed", "cost": 20000})
     for lo in range(0, 1200, 100):
         chunks.append({"key": f"ak/offsets/{lo}", "kind": "ak_offsets", "lo": lo, "hi": lo + 100, "cost": 6000})
-    for lo in (4070, 65500, 70130):
+    for lo in (4070, 8170, 9170, 16365, 65500, 70130):
         chunks.append({"key": f"ak/offsets/{lo}", "kind": "ak_offsets", "lo": lo, "hi": lo + 40, "cost": 3000})
     return chunks
 
@@ -343,8 +343,20 @@ def chunk_ak_offsets(chunk, acc):
         hdr = struct.pack("<II", p1 + 16, 5) + key + b"HINTHINT"
         data = b"\xee" * p1 + hdr + body
         acc.states += 1
-        if p1 <= 1200:
+        if p1 <= 20000:
             ak_judge(acc, data, 0, 0, None)
+        if p1 < 200:
+            # (should the scanner ever read through a buffer: every small buffer boundary as well)
+            for S in (5, 7, 16):
+                io.DEFAULT_BUFFER_SIZE = S
+                try:
+                    ak_judge(acc, data + bytes([S]), 0, 0, None)
+                    ak_judge(acc, data + bytes([S]), 2, 0, None)
+                finally:
+                    io.DEFAULT_BUFFER_SIZE = 8192
+        if 2000 < p1 <= 20000:
+            ak_judge(acc, data, 1000, 0, None)
+            ak_judge(acc, data, None, 1, None)
         ak_judge(acc, data, max(p1 - 3, 0), 0, None)
         ak_judge(acc, data, max(p1 - 3, 0), 0, p1)
     acc.sample({"header_at": f"{chunk['lo']}..{chunk['hi'] - 1}", "size": 5, "key": "01020304"})
